@@ -17,9 +17,14 @@ REGISTRY = {
     "C07": ("cores", {"rel": []}),
     "C08": ("itp", {"rel": []}),
     "C09": ("itp", {"rel": []}),
+    "C11": ("trace", {"rel": []}),
+    "C12": ("trace", {"rel": []}),
+    "C13": ("trace", {"rel": []}),
+    "C15": ("apiharness", {"asan": ["h_rational"]}),
     "C18": ("procmon", {"asan": []}),
     "C20": ("procmon", {"rel": []}),
     "C23": ("procmon", {"rel": []}),
+    "C26": ("trace", {"rel": []}),
     "C29": ("history", {"rel": []}),
     "C30": ("history", {"rel": []}),
 }
